@@ -1,0 +1,43 @@
+//go:build verif
+
+package dragonboat
+
+// White-box read access for the R22 verification harness (progress through the
+// NodeHost glue, sub-check of C17): the quiesce state and the rate limit flag of
+// the replica of a shard on this NodeHost. Read under node.raftMu, the lock the
+// step worker holds while it touches them. Add-only, compiled only with
+// -tags verif.
+
+// VerifR22State is what the harness reads of one replica.
+type VerifR22State struct {
+	Found          bool   // the shard has a replica on this NodeHost
+	QuiesceEnabled bool   // config.Config.Quiesce
+	Quiesced       bool   // quiesceState.quiesced()
+	QuiesceTick    uint64 // quiesceState.currentTick
+	QuiescedSince  uint64 // tick at which quiesce was entered, 0 = not quiesced
+	ExitTick       uint64 // tick of the last exit from quiesce
+	RateLimited    bool   // node.rateLimited, the flag handleProposals pauses the proposal queue with
+	Applied        uint64 // index of the last entry applied by the state machine
+	Tick           uint64 // node.currentTick
+}
+
+// VerifR22State returns the state of the shard's replica on this NodeHost.
+func (nh *NodeHost) VerifR22State(shardID uint64) VerifR22State {
+	n, ok := nh.getShard(shardID)
+	if !ok {
+		return VerifR22State{}
+	}
+	n.raftMu.Lock()
+	defer n.raftMu.Unlock()
+	return VerifR22State{
+		Found:          true,
+		QuiesceEnabled: n.qs.enabled,
+		Quiesced:       n.qs.quiesced(),
+		QuiesceTick:    n.qs.currentTick,
+		QuiescedSince:  n.qs.quiescedSince,
+		ExitTick:       n.qs.exitQuiesceTick,
+		RateLimited:    n.rateLimited,
+		Applied:        n.sm.GetLastApplied(),
+		Tick:           n.currentTick,
+	}
+}
